@@ -59,6 +59,8 @@ def shape_errors(sol, rkey, k=None, exact_k=False, weight_type=None, need_weight
                     errs.append(f"weight {x!r} is negative or not a number")
                 elif weight_type == "int" and (not isinstance(x, int)):
                     errs.append(f"weight {x!r} is not a Python int although weight_type=int")
+                elif weight_type == "float" and (not isinstance(x, float)):
+                    errs.append(f"weight {x!r} is not a float although weight_type=float")
     for key in ("slacks", "scaled_slacks"):
         if key in sol:
             s = sol[key]
@@ -69,8 +71,9 @@ def shape_errors(sol, rkey, k=None, exact_k=False, weight_type=None, need_weight
                     if not _is_num(x) or x < -1e-9:
                         errs.append(f"{key} entry {x!r} is negative or not a number")
     if k is not None:
-        if len(routes) > k:
-            errs.append(f"k-model with k={k} returned {len(routes)} routes")
+        n_routes = len(routes) if exact_k else sum(1 for r in routes if len(r) > 0)  # (an empty list is a placeholder, not a route)
+        if n_routes > k:
+            errs.append(f"k-model with k={k} returned {n_routes} routes")
         if exact_k and len(routes) != k:
             errs.append(f"k-model with k={k} (empty routes not allowed, no additional start/end) returned {len(routes)} routes")
         if exact_k and any(len(r) == 0 for r in routes):
